@@ -1,5 +1,5 @@
 (* Entry point for the extracted executable: decodes cases, runs the model. *)
-From CV Require Import Base.Bytes Base.Glob Supp.Defs Supp.ParseDefs Supp.PairDefs.
+From CV Require Import Base.Bytes Base.Glob Supp.Defs Supp.ParseDefs Supp.PairDefs Supp.DispatchDefs.
 From CV Require Path.Defs.
 Local Open Scope N_scope.
 
@@ -198,6 +198,26 @@ Definition run (fields : list str) : list str :=
         | Some (es, _) => let '(bl, bad) := pair_blocks es in
                           dec_of_N bad :: flat_map (fun b => [bk_id b; bk_sym b; dec_of_Z (bk_begin b); dec_of_Z (bk_end b)]) bl
         | None => BAD
+        end
+      else if tag_is tag [100;105;115;112] then                 (* "disp": one comment on its own line, after code, before code *)
+        match args with
+        | [c] =>
+            match dispatch c with
+            | DNot => [[48]]
+            | DBad => [[49]]
+            | DOk t items bad =>
+                let nb : N := if bad then 1 else 0 in
+                match t with
+                | TUnique | TMacro =>
+                    (* addSuppression refuses invalid ids and repeated (id, symbol) *)
+                    let added := fold_left (fun acc it => let p := mkPL (fst it) [102;46;99] 3 (snd it) false in
+                                                          if addable acc p then acc ++ [p] else acc) items [] in
+                    dec_of_N nb :: flat_map (fun p => [pl_id p; pl_symbol p;
+                                                       match t with TMacro => [53] | _ => [48] end]) added
+                | _ => [dec_of_N (nb + N.of_nat (length items))]   (* file not at the top / begin without end / end without begin *)
+                end
+            end
+        | _ => BAD
         end
       else BAD
   end.
